@@ -858,6 +858,21 @@ func (c *Ctx) sliceInstr(x *ssa.Slice, st *State) {
 			mx = n
 		}
 		c.sweepObl("slice.bounds", sAnd(c.idxLe(c.idxConst(0), lo), c.idxLe(lo, hi), c.idxLe(hi, mx), c.idxLe(mx, n)), "array slice expression")
+		if _, ok := isScalarArray(at); ok && base.Loc != nil && base.Loc.Kind == LLocal && base.Loc.Alloc != nil && allocWrittenOnce(base.Loc.Alloc) {
+			// slice of an array inside a local variable that is written exactly once (a by-value
+			// parameter or a literal) and never through a field or element afterwards: the
+			// slice reads a snapshot of the array - a fresh array object with that content
+			root := c.projPath(st.locals[base.Loc.Alloc], base.Loc.Path)
+			arr := c.newRef("arrsnap")
+			c.allocRefs = append(c.allocRefs, arr)
+			name := elemPrefix(at.Elem())
+			sort := "(Array Int (Array " + c.idxSort() + " " + c.scalarSort(at.Elem()) + "))"
+			c.registerMap(name, sort)
+			m := c.lookup(st, name)
+			st.over[name] = c.define("hw", sort, "(store "+m+" "+arr+" "+root.S+")")
+			c.set(x, &Val{K: VSlice, T: x.Type(), Arr: arr, Off: lo, Len: c.idxSub(hi, lo), Cap: c.idxSub(mx, lo)})
+			return
+		}
 		if _, ok := isScalarArray(at); !ok || (base.Loc != nil && base.Loc.Kind == LLocal) {
 			c.drop("slice-of-array")
 			c.set(x, c.freshVal(x.Type(), "arrslice"))
@@ -972,7 +987,9 @@ func (c *Ctx) bytesOfString(v *Val, to types.Type, st *State) *Val {
 		rng = "(bvult i " + l + ")"
 	}
 	bf := c.strByteFn()
-	c.assumeHere(fmt.Sprintf("(forall ((i %s)) (! (=> %s (= (select %s i) (%s %s i))) :pattern ((select %s i))))", c.idxSort(), rng, inner, bf, v.S, inner))
+	if !c.abstractCopyContent() {
+		c.assumeHere(fmt.Sprintf("(forall ((i %s)) (! (=> %s (= (select %s i) (%s %s i))) :pattern ((select %s i))))", c.idxSort(), rng, inner, bf, v.S, inner))
+	}
 	st.over[name] = c.define("hw", sort, "(store "+c.lookup(st, name)+" "+arr+" "+inner+")")
 	return res
 }
@@ -1169,4 +1186,22 @@ func (c *Ctx) strNext(x *ssa.Next, r *ssa.Range, st *State) {
 		c.assumeHere(sImp(sAnd(ok, ascii), sEq(nv.F[2].S, "((_ zero_extend 24) "+b+")")))
 	}
 	c.set(x, &nv)
+}
+
+// allocWrittenOnce: the variable is the spill of a by-value parameter: stored to exactly once,
+// with the parameter, and never through one of its fields or elements
+func allocWrittenOnce(a *ssa.Alloc) bool {
+	n := 0
+	fromParam := false
+	if refs := a.Referrers(); refs != nil {
+		for _, r := range *refs {
+			if st, ok := r.(*ssa.Store); ok && st.Addr == ssa.Value(a) {
+				n++
+				_, fromParam = st.Val.(*ssa.Parameter)
+			}
+		}
+	}
+	// only the spill of a by-value parameter qualifies: a zero-initialised local that is
+	// sliced is usually sliced in order to be filled through the slice
+	return n == 1 && fromParam && !hasFieldStores(a)
 }
